@@ -305,8 +305,30 @@ def _dispatch(item):
 
 
 def replay(cex):
-    print(cex.get("what"))
-    return 1
+    i = cex.get("inputs", {})
+    if "mesh" in i:
+        return c01.replay(cex)
+    key = cex.get("key", "")
+    name = i.get("model")
+    if key.startswith("C14/F2-vs-F1/"):
+        r = _cex_sym(name, i.get("n") or 0)(None)
+    else:
+        oracle, _m, mode = key.split("/")[1], key.split("/")[2], int(key.rsplit("mode", 1)[1])
+
+        class _M:       # stored concrete parameters stand in for the solver model
+            pass
+        pars = dict(i.get("pars", {}))
+        info = core.load_model_info(name)
+        model = core.build_model(info, dtype="double", platform="dll")
+        kern = model.make_kernel([np.array([0.01])])
+        F1, F2, R, Vs, ratio = direct_model.call_Fq(kern, dict(pars))
+        Vf = Vs * ratio
+        bad = abs(4 * math.pi / 3 * R ** 3 - Vf) > 1e-9 * abs(Vf) if oracle == "equivalent-volume-sphere" \
+            else not (R > 0 and Vf > 0 and Vs > 0)
+        print("R_eff", R, "V_form", Vf, "V_shell", Vs)
+        return 1 if bad else 0
+    print(r["what"])
+    return 1 if r["reproduced"] else 0
 
 
 def run(chk):
